@@ -338,10 +338,9 @@ w("""
   §5. TLC integers are 32-bit: wide arithmetic is symbolic (GoTypes) or delegated to math/big (C11).
 * **Fragments.** C07 is a fragment of Go's inference (no interface inference, channel directions,
   generic function values as arguments of generic functions: `Id(Id)` does not terminate, a C17
-  matter); C06 has no overloaded operators and overloaded named-type casts; C11 has no tuple casts;
+  matter); C06 has no unary overloaded operators and no overloaded named-type casts; C11 has no tuple casts;
   C12 does not model gofmt's layout (canonicality is the predicate "go/format leaves the text
-  unchanged" on specification-enumerated trees and a standard-library corpus); C13 has no type
-  parameters in type expressions; C02's statement structure is that of Flow.tla's alphabet (no
+  unchanged" on specification-enumerated trees and a standard-library corpus); C13 enumerates instantiated generic types but not the declaration of type-parameter lists; C02's statement structure is that of Flow.tla's alphabet (no
   `select` communications with values, no `defer`/`go` bodies beyond C16's protocol).
 * **Meaning.** "Same program" and "documented lowering" are decided structurally (typed canonical
   trees) except C11 R7/R8, which execute. A wrong entry that is wrong both in the catalogue and in
